@@ -216,6 +216,52 @@ fn c15_scenario_w(sizes: &'static [usize], second_client: bool, mask: u8) -> imp
 	}
 }
 
+/// C03 under threads: a client commits three order-sensitive transactions over a hash and a btree column (a key
+/// written twice, a key written and removed again) and drops the handle at whatever point the workers have reached
+/// (`mask`: which of the real worker loops run; the others never get to run before the drop). After the drop the
+/// directory is opened without threads: all three transactions must be there, in order.
+fn c03_drop_anywhere(mask: u8) -> impl Fn() + Sync + Send + 'static {
+	move || {
+		ITER.fetch_add(1, Ordering::SeqCst);
+		let dir = fresh_dir();
+		parity_db::verif::set_external_workers(true);
+		let cols = vec![ColumnOptions::default(), ColumnOptions { btree_index: true, ..Default::default() }];
+		let opts = options(&dir, cols.clone(), true);
+		let db = Arc::new(Db::open_or_create(&opts).expect("open"));
+		let mut workers = vec![];
+		for (wi, w) in [Worker::Log, Worker::Flush, Worker::Commit, Worker::Cleanup].into_iter().enumerate() {
+			if mask & (1 << wi) == 0 {
+				continue
+			}
+			let db = db.clone();
+			workers.push(loom::thread::spawn(move || db.verif_run_worker(w)));
+		}
+		let txs: Vec<Vec<(u8, Vec<u8>, Option<Vec<u8>>)>> = vec![
+			vec![(0, key(1), Some(val(10, 1))), (1, key(1), Some(val(30, 2)))],
+			vec![(0, key(1), Some(val(70, 3))), (0, key(2), Some(val(10, 4))), (1, key(2), Some(val(12, 5)))],
+			vec![(0, key(2), None), (1, key(1), None), (1, key(3), Some(val(9, 6)))],
+		];
+		for tx in txs {
+			db.commit(tx).expect("commit");
+			loom::thread::yield_now();
+		}
+		db.verif_shutdown();
+		for w in workers {
+			w.join().unwrap();
+		}
+		let db = Arc::try_unwrap(db).ok().expect("sole owner");
+		drop(db);
+		let opts = options(&dir, cols, false);
+		let db = Db::open(&opts).expect("reopen");
+		assert_eq!(db.get(0, &key(1)).unwrap(), Some(val(70, 3)), "after drop + reopen: hash key 1 must hold the value of the second transaction");
+		assert_eq!(db.get(0, &key(2)).unwrap(), None, "after drop + reopen: hash key 2 was removed by the third transaction");
+		assert_eq!(db.get(1, &key(1)).unwrap(), None, "after drop + reopen: btree key 1 was removed by the third transaction");
+		assert_eq!(db.get(1, &key(2)).unwrap(), Some(val(12, 5)), "after drop + reopen: btree key 2 must hold the value of the second transaction");
+		assert_eq!(db.get(1, &key(3)).unwrap(), Some(val(9, 6)), "after drop + reopen: btree key 3 must hold the value of the third transaction");
+		drop(db);
+	}
+}
+
 /// C15 liveness: an accepted commit is logged by the workers without further client activity. The client commits
 /// and then only watches the queue (yielding); with a worker that is never woken the watch loop never ends and
 /// loom stops the execution at its branch limit.
@@ -1365,6 +1411,12 @@ fn run_child(prop: &str, tier: &str, idx: usize) -> Outcome {
 		("C15", 7) if !quick => explore("workers/over-queue-limit", 2, wall, c15_scenario(&[100, 8], false)),
 		("C15", 8) if !quick => explore("workers/3-commits-mixed", 2, wall, c15_scenario(&[100, 600, 8], false)),
 		("C15", 9) if !quick => explore("workers/second-client", 2, wall, c15_scenario(&[100], true)),
+		("C03L", 0) => explore("drop-anywhere/3-commits/all-workers", 1, wall, c03_drop_anywhere(0b1111)),
+		("C03L", 1) => explore("drop-anywhere/3-commits/log+flush-workers", 2, wall.min(if quick { 30.0 } else { wall }), c03_drop_anywhere(0b0011)),
+		("C03L", 2) => explore("drop-anywhere/3-commits/log-worker-only", 2, wall.min(if quick { 30.0 } else { wall }), c03_drop_anywhere(0b0001)),
+		("C03L", 3) => explore("drop-anywhere/log-rotation/all-workers", 1, wall.min(if quick { 30.0 } else { wall }), c15_scenario(&[600, 8], false)),
+		("C03L", 4) if !quick => explore("drop-anywhere/3-commits/all-workers", 2, wall, c03_drop_anywhere(0b1111)),
+		("C03L", 5) if !quick => explore("drop-anywhere/3-commits/log+flush+commit-workers", 2, wall, c03_drop_anywhere(0b0111)),
 		("C12L", 0) => explore("backlog-2-files/commit+cleanup-workers", 2, wall.min(if quick { 30.0 } else { wall }), c12_backlog("backlog-2-files/commit+cleanup-workers", 2, 2, 0b1100, false)),
 		("C12L", 1) => explore("backlog-3-files/commit+cleanup-workers", 1, wall.min(if quick { 30.0 } else { wall }), c12_backlog("backlog-3-files/commit+cleanup-workers", 1, 3, 0b1100, false)),
 		("C12L", 2) => explore("backlog-3-files/all-workers", 1, wall.min(if quick { 30.0 } else { wall }), c12_backlog("backlog-3-files/all-workers", 1, 3, 0b1111, false)),
@@ -1460,6 +1512,7 @@ fn main() {
 		"C12L" => "C12".to_string(),
 		"C16L" => "C16".to_string(),
 		"C09L" => "C09".to_string(),
+		"C03L" => "C03".to_string(),
 		_ => prop.clone(),
 	};
 	let evidence_name = match prop.as_str() {
@@ -1467,6 +1520,7 @@ fn main() {
 		"C12L" => "C12-loom".to_string(),
 		"C16L" => "C16-loom".to_string(),
 		"C09L" => "C09-loom".to_string(),
+		"C03L" => "C03-loom".to_string(),
 		_ => prop.clone(),
 	};
 	let traces_root = PathBuf::from(format!("{}/pdbloom-traces-{}", std::env::var("PDBMC_SCRATCH").unwrap_or_else(|_| "/dev/shm".into()), std::process::id()));
@@ -1634,6 +1688,7 @@ fn main() {
 			"rule": "loom explores every interleaving of the scenario's threads at Mutex/RwLock/Condvar operations with at most the stated number of preemptions (DPOR); one schedule = one complete execution of the real code on a fresh database; states/transitions here count complete schedules (loom is stateless)",
 			"parts": parts, "exhaustive": exhaustive, "io_traces_judged_for_power_loss": trace_judgement,
 			"samples": [match prop.as_str() {
+				"C03L" => json!({"scenario": "drop-anywhere/3-commits/all-workers", "threads": "log worker, flush worker, commit worker, cleanup worker (the crate's real loops), client: commit T1{h1:=a, b1:=b}, yield, commit T2{h1:=c, h2:=d, b2:=e}, yield, commit T3{del h2, del b1, b3:=f}, yield, shutdown, join, drop; then reopen without threads and read back"}),
 				"C15" => json!({"scenario": "workers/2-small-commits", "threads": "log worker, flush worker, commit worker, cleanup worker (the crate's real loops), client: commit, commit, shutdown, join, drop, reopen, read back"}),
 				"C05" => json!({"scenario": "hash/one-pipeline-thread", "threads": "writer: commit T1{k1,k2}, commit T2{k1, del k2}; pipeline: process_commits, flush, process_commits, enact, flush, enact, clean; reader: get k1, get k2, get k1 with the version assertions"}),
 				"C11L" => json!({"scenario": "reader+pruner+writer/one-pipeline-thread", "threads": "reader: lock K1, walk, insert K2 reusing K1's child, walk again, unlock; pruner: [deref K1, b:=A]; writer: b:=B; pipeline thread"}),
